@@ -67,11 +67,36 @@ Qed.
 Lemma ceqb_clen0 a b : clen a = 0 -> clen b = 0 -> ceqb a b = true.
 Proof. intros Ha Hb. unfold ceqb. rewrite (expand_clen0 a Ha), (expand_clen0 b Hb). reflexivity. Qed.
 
+(* dropping beyond the end leaves nothing *)
+Lemma cdrop_beyond c : forall k, clen c < k -> cdrop k c = [].
+Proof.
+  induction c as [|[[sd off] l] r IH]; intros k H; [reflexivity|].
+  rewrite clen_cons in H. cbn [plen snd] in H. cbn [cdrop].
+  destruct (k =? 0) eqn:E0; [lia|].
+  destruct (l <=? k) eqn:El; [|lia].
+  apply IH. lia.
+Qed.
+
+Lemma cread_beyond c k n : clen c < k -> cread c k n = [].
+Proof. intro H. unfold cread. rewrite cdrop_beyond by assumption. reflexivity. Qed.
+
+(* no zero-length pieces at the very end of a content (dropping everything leaves the empty piece list) *)
+Definition notrail (c : content) : Prop := cdrop (clen c) c = [].
+
+Lemma cread_end_notrail c n : notrail c -> cread c (clen c) n = [].
+Proof. unfold notrail, cread. intros ->. reflexivity. Qed.
+
+Lemma notrail_nil : notrail [].
+Proof. reflexivity. Qed.
+
+Lemma notrail_clen0 c : notrail c -> clen c = 0 -> c = [].
+Proof. unfold notrail. intros H H0. rewrite H0 in H. destruct c as [|[[sd off] l] r]; [reflexivity|exact H]. Qed.
+
 (* ---------------------------------------------------------------- the envelope *)
-(* the envelope of the task statement *)
+(* the envelope of the task statement: every operation except a Seek whose target lies beyond the end of the data
+   (ReadAt/WriteAt, accepted or refused, are inside: they preserve the cursor since the repair) *)
 Definition op_ok (s : fspec) (o : hop) : bool :=
   match o with
-  | HReadAt _ _ | HWriteAt _ _ => false
   | HSeek off w =>
       (* the target must not lie beyond the end of the data *)
       let base := if w =? 0 then 0%Z else if w =? 1 then Z.of_N (sp_pos s) else Z.of_N (clen (sp_data s)) in
@@ -84,18 +109,16 @@ Fixpoint ops_ok (s : fspec) (ops : list hop) : bool :=
 Definition results_agree (a b : list hres) : Prop := Forall2 (fun x y => hres_eqb x y = true) a b.
 
 (* the wider envelope: [wm] says that the handle is known to be in write mode (it was opened
-   truncating a non-empty file for writing, or an earlier Write/WriteAt or a Truncate to a
-   non-negative size was issued on a writable handle; a Truncate to a negative size is refused
-   before write mode is entered).  In write mode every seek is fine; in read mode a seek is fine when it is
-   rejected (bad whence, negative target) or its target is not beyond the end.  ReadAt/WriteAt are
-   fine only when they are rejected (handle not readable/writable, negative offset). *)
+   truncating a non-empty file for writing, or an earlier Write/WriteAt (accepted or refused for a negative
+   offset) or a Truncate to a non-negative size was issued on a writable handle; a Truncate to a negative size
+   is refused before write mode is entered).  In write mode every seek is fine; in read mode a seek is fine
+   when it is rejected (bad whence, negative target) or its target is not beyond the end.  Everything else,
+   including every ReadAt and WriteAt, is fine in both modes. *)
 Definition enters_write (fl : flags) (o : hop) : bool :=
   fl_write fl && match o with HWrite _ | HWriteAt _ _ => true | HTruncate sz => negb (sz <? 0)%Z | _ => false end.
 
 Definition op_ok' (wm : bool) (s : fspec) (o : hop) : bool :=
   match o with
-  | HReadAt _ off => negb (fl_read (sp_fl s)) || (off <? 0)%Z
-  | HWriteAt _ off => negb (fl_write (sp_fl s)) || (off <? 0)%Z
   | HSeek off w =>
       let base := if w =? 0 then 0%Z else if w =? 1 then Z.of_N (sp_pos s) else Z.of_N (clen (sp_data s)) in
       wm || (2 <? w) || (base + off <=? Z.of_N (clen (sp_data s)))%Z
@@ -108,6 +131,20 @@ Fixpoint ops_ok' (wm : bool) (s : fspec) (ops : list hop) : bool :=
   end.
 Definition wm_open (existing : content) (fl : flags) : bool :=
   fl_write fl && fl_trunc fl && negb (clen existing =? 0).
+
+(* only for SYNTACTIC equality of the results on contents that end in zero-length pieces: an accepted ReadAt in
+   read mode must not start beyond the end (the stream stops at the end and delivers those zero-length pieces,
+   the byte array delivers the empty piece list; both are zero bytes) *)
+Definition op_strict (wm : bool) (s : fspec) (o : hop) : bool :=
+  match o with
+  | HReadAt _ off => wm || negb (fl_read (sp_fl s)) || (off <=? Z.of_N (clen (sp_data s)))%Z
+  | _ => true
+  end.
+Fixpoint ops_strict (wm : bool) (s : fspec) (ops : list hop) : bool :=
+  match ops with
+  | [] => true
+  | o :: r => op_strict wm s o && ops_strict (wm || enters_write (sp_fl s) o) (fst (spec_step s o)) r
+  end.
 
 Lemma op_ok_weaken wm s o : op_ok s o = true -> op_ok' wm s o = true.
 Proof.
@@ -128,17 +165,19 @@ Definition is_w (h : hstate) : bool := match hs_buf h with Some _ => true | None
 
 (* [z = true]: a handle opened O_TRUNC for writing on an existing content that consists of zero-length
    pieces only stays in read mode with that content on "tape", while the reference holds []; the two
-   agree up to [expand] only.  [z = false] excludes that corner and gives syntactic equality. *)
+   agree up to [expand] only.  [z = false] excludes that corner and gives syntactic equality.
+   [q = true]: the content on "tape" does not end in zero-length pieces. *)
 Definition empty_like (z : bool) (c : content) : Prop := if z then clen c = 0 else c = [].
 Lemma empty_like_clen z c : empty_like z c -> clen c = 0.
 Proof. destruct z; cbn; [auto|intros ->; reflexivity]. Qed.
 
-Definition sim (z : bool) (h : hstate) (s : fspec) : Prop :=
-  hs_fl h = sp_fl s /\ fl_append (sp_fl s) = false /\
+Definition sim (z q : bool) (h : hstate) (s : fspec) : Prop :=
+  hs_fl h = sp_fl s /\
   match hs_buf h with
   | Some (b, cur) => b = sp_data s /\ cur = sp_pos s
   | None =>
       hs_isize h = clen (hs_tape h) /\ sp_pos s = rp h /\ sp_pos s <= clen (hs_tape h) /\
+      (q = true -> notrail (hs_tape h)) /\
       (if fl_write (sp_fl s) && fl_trunc (sp_fl s)
        then empty_like z (hs_tape h) /\ sp_data s = []
        else hs_tape h = sp_data s)
@@ -162,42 +201,44 @@ Proof. intros [H|[H _]]; [exact H|discriminate]. Qed.
 Definition no_empty_pieces_corner (existing : content) (fl : flags) : Prop :=
   fl_write fl && fl_trunc fl = true -> clen existing = 0 -> existing = [].
 
+Lemma notrail_no_corner existing fl : notrail existing -> no_empty_pieces_corner existing fl.
+Proof. intros H _ H0. apply notrail_clen0; assumption. Qed.
+
 Lemma hs_fl_enter_write h : hs_fl (enter_write h) = hs_fl h.
 Proof. unfold enter_write. destruct (hs_buf h); reflexivity. Qed.
-Lemma to_end_noappend h d : fl_append (hs_fl h) = false -> to_end_if_append h d = h.
-Proof. intro H. unfold to_end_if_append. rewrite H. reflexivity. Qed.
 Lemma is_w_to_end h d : is_w (to_end_if_append h d) = is_w h.
 Proof.
   unfold to_end_if_append, is_w. destruct (fl_append (hs_fl h) && _); [|reflexivity].
   destruct (hs_buf h) as [[b cur]|] eqn:Eb; cbn; rewrite ?Eb; reflexivity.
 Qed.
 
-Lemma sim_open z existing fl : fl_append fl = false ->
+Lemma sim_open z q existing fl :
   (z = false -> no_empty_pieces_corner existing fl) ->
-  sim z (h_open existing fl) (spec_open existing fl).
+  (q = true -> notrail existing) ->
+  sim z q (h_open existing fl) (spec_open existing fl).
 Proof.
-  intros Ha Hz. unfold sim, h_open, spec_open, rp. cbn [hs_fl sp_fl hs_buf hs_tape hs_isize hs_rpos sp_data sp_pos].
-  split; [reflexivity|]. split; [assumption|].
+  intros Hz Hq. unfold sim, h_open, spec_open, rp. cbn [hs_fl sp_fl hs_buf hs_tape hs_isize hs_rpos sp_data sp_pos].
+  split; [reflexivity|].
   destruct (fl_write fl && fl_trunc fl) eqn:E; cbn [andb].
   - destruct (clen existing =? 0) eqn:E0; cbn [negb].
-    + repeat split; try lia. unfold empty_like. destruct z; [lia|]. apply Hz; [reflexivity|exact E|lia].
+    + repeat split; try lia; try assumption. unfold empty_like. destruct z; [lia|]. apply Hz; [reflexivity|exact E|lia].
     + split; reflexivity.
-  - repeat split; lia.
+  - repeat split; try lia; assumption.
 Qed.
 
 Lemma is_w_open existing fl : wm_open existing fl = true -> is_w (h_open existing fl) = true.
 Proof. unfold wm_open, is_w, h_open. cbn [hs_buf]. intros ->. reflexivity. Qed.
 
 (* entering write mode preserves the relation *)
-Lemma sim_enter_write z h s : sim z h s -> fl_write (sp_fl s) = true -> sim z (enter_write h) s.
+Lemma sim_enter_write z q h s : sim z q h s -> fl_write (sp_fl s) = true -> sim z q (enter_write h) s.
 Proof.
   destruct h as [tape isz rpos buf fl], s as [data pos fl'].
   unfold sim, enter_write, rp. cbn [hs_fl sp_fl hs_buf hs_tape hs_isize hs_rpos sp_data sp_pos].
-  intros (-> & Ha & Hm) Hw. destruct buf as [[b cur]|].
+  intros (-> & Hm) Hw. destruct buf as [[b cur]|].
   - cbn [hs_fl sp_fl hs_buf hs_tape hs_isize hs_rpos]. auto.
-  - cbn [hs_fl sp_fl hs_buf hs_tape hs_isize hs_rpos]. rewrite Ha. rewrite Hw in Hm. cbn [andb] in Hm.
-    split; [reflexivity|]. split; [reflexivity|].
-    destruct Hm as (Hi & Hp & Hle & Hd). destruct (fl_trunc fl').
+  - cbn [hs_fl sp_fl hs_buf hs_tape hs_isize hs_rpos]. rewrite Hw in Hm. cbn [andb] in Hm.
+    split; [reflexivity|].
+    destruct Hm as (Hi & Hp & Hle & _ & Hd). destruct (fl_trunc fl').
     + destruct Hd as [H0 ->]. apply empty_like_clen in H0. split; [reflexivity|]. destruct rpos; lia.
     + split; [assumption|]. destruct rpos; lia.
 Qed.
@@ -205,15 +246,107 @@ Qed.
 Lemma is_w_enter_write h : is_w (enter_write h) = true.
 Proof. unfold is_w, enter_write. destruct (hs_buf h); reflexivity. Qed.
 
+(* ---------------------------------------------------------------- seeks, unfolded *)
+Lemma h_seek_cur_w h b cur : hs_buf h = Some (b, cur) -> h_seek h 0 1 = (set_buf h b cur, ROff (Z.of_N cur)).
+Proof.
+  intro E. unfold h_seek. rewrite E.
+  change (1 =? 0) with false. change (1 =? 1) with true. change (2 <? 1) with false. cbv beta iota zeta.
+  rewrite Z.add_0_r, N2Z.id. cbn [orb].
+  destruct (Z.ltb_spec (Z.of_N cur) 0); [lia|reflexivity].
+Qed.
+
+Lemma h_seek_cur_r h : hs_buf h = None -> h_seek h 0 1 = (seek_read h (rp h), ROff (Z.of_N (rp h))).
+Proof.
+  intro E. unfold h_seek. rewrite E. fold (rp h).
+  change (1 =? 0) with false. change (1 =? 1) with true. change (2 <? 1) with false. cbv beta iota zeta.
+  rewrite Z.add_0_r, N2Z.id. cbn [orb].
+  destruct (Z.ltb_spec (Z.of_N (rp h)) 0); [lia|reflexivity].
+Qed.
+
+Lemma h_seek_abs_w h b cur off : hs_buf h = Some (b, cur) ->
+  h_seek h off 0 = if (off <? 0)%Z then (h, RErr) else (set_buf h b (Z.to_N off), ROff off).
+Proof.
+  intro E. unfold h_seek. rewrite E.
+  change (0 =? 0) with true. change (2 <? 0) with false. cbv beta iota zeta.
+  change (0 + off)%Z with off. cbn [orb]. reflexivity.
+Qed.
+
+Lemma h_seek_abs_r h off : hs_buf h = None ->
+  h_seek h off 0 = if (off <? 0)%Z then (h, RErr) else (seek_read h (Z.to_N off), ROff off).
+Proof.
+  intro E. unfold h_seek. rewrite E.
+  change (0 =? 0) with true. change (2 <? 0) with false. cbv beta iota zeta.
+  change (0 + off)%Z with off. cbn [orb]. reflexivity.
+Qed.
+
+Lemma of_N_ltb0 n : (Z.of_N n <? 0)%Z = false.
+Proof. destruct (Z.ltb_spec (Z.of_N n) 0); [lia|reflexivity]. Qed.
+
 (* ---------------------------------------------------------------- one step *)
 Ltac proj := cbn [hs_fl sp_fl hs_buf hs_tape hs_isize hs_rpos sp_data sp_pos fst snd set_buf seek_read] in *.
 
-Lemma sim_step z wm h s o :
-  sim z h s -> (wm = true -> is_w h = true) -> op_ok' wm s o = true ->
-  sim z (fst (hstep h o)) (fst (spec_step s o)) /\ res_sim z (snd (hstep h o)) (snd (spec_step s o)).
+(* ReadAt and WriteAt on a handle in write mode *)
+Lemma hstep_readat_w h b cur n off : hs_buf h = Some (b, cur) -> fl_read (hs_fl h) = true ->
+  hstep h (HReadAt n off) =
+  if (off <? 0)%Z then (set_buf h b cur, RErr)
+  else (set_buf h b cur, let d := cread b (Z.to_N off) n in RData d (clen d =? 0)).
 Proof.
-  intros Hsim Hwm Hok. pose proof Hsim as Hsim0.
-  destruct Hsim as (Hfl & Ha & Hm).
+  intros E Hr. unfold hstep. rewrite Hr. cbn [negb].
+  rewrite (h_seek_cur_w h b cur E).
+  rewrite (h_seek_abs_w (set_buf h b cur) b cur off eq_refl).
+  destruct (off <? 0)%Z; [reflexivity|].
+  unfold h_read. proj. rewrite Hr. cbn [negb].
+  erewrite h_seek_abs_w by reflexivity. rewrite of_N_ltb0, N2Z.id. reflexivity.
+Qed.
+
+Lemma hstep_writeat_w h b cur d off : hs_buf h = Some (b, cur) ->
+  (let '(h0, c) := h_seek h 0 1 in
+   match c with
+   | ROff c =>
+      match h_seek h0 off 0 with
+      | (h1, ROff _) =>
+        let '(h2, r) := h_write_at_cursor h1 d in
+        match h_seek h2 c 0 with
+        | (h3, ROff _) => (h3, r)
+        | (h3, _) => (h3, RErr)
+        end
+      | (h1, _) => (h1, RErr)
+      end
+   | _ => (h0, RErr)
+   end) =
+  if (off <? 0)%Z then (set_buf h b cur, RErr)
+  else (set_buf h (cwrite b (Z.to_N off) d) cur, RN (clen d)).
+Proof.
+  intros E.
+  rewrite (h_seek_cur_w h b cur E).
+  rewrite (h_seek_abs_w (set_buf h b cur) b cur off eq_refl).
+  destruct (off <? 0)%Z; [reflexivity|].
+  unfold h_write_at_cursor. proj.
+  erewrite h_seek_abs_w by reflexivity. rewrite of_N_ltb0, N2Z.id. reflexivity.
+Qed.
+
+(* ReadAt on a handle in (streaming) read mode whose position is within the content *)
+Lemma hstep_readat_r h n off : hs_buf h = None -> fl_read (hs_fl h) = true -> rp h <= clen (hs_tape h) ->
+  hstep h (HReadAt n off) =
+  if (off <? 0)%Z then (seek_read h (rp h), RErr)
+  else (seek_read h (rp h),
+        let d := cread (hs_tape h) (N.min (Z.to_N off) (clen (hs_tape h))) n in RData d (clen d =? 0)).
+Proof.
+  intros E Hr Hle. unfold hstep. rewrite Hr. cbn [negb].
+  rewrite (h_seek_cur_r h E).
+  rewrite (h_seek_abs_r (seek_read h (rp h)) off eq_refl).
+  destruct (off <? 0)%Z; [reflexivity|].
+  unfold h_read. proj. rewrite Hr. cbn [negb].
+  erewrite h_seek_abs_r by reflexivity. rewrite of_N_ltb0, N2Z.id. reflexivity.
+Qed.
+
+Lemma sim_step z q wm h s o :
+  sim z q h s -> (wm = true -> is_w h = true) -> op_ok' wm s o = true ->
+  z || q || op_strict wm s o = true ->
+  sim z q (fst (hstep h o)) (fst (spec_step s o)) /\ res_sim z (snd (hstep h o)) (snd (spec_step s o)).
+Proof.
+  intros Hsim Hwm Hok Hst. pose proof Hsim as Hsim0.
+  destruct Hsim as (Hfl & Hm).
   destruct o as [n|n off|off w|d|d off|sz| |].
   - (* Read *)
     unfold hstep, h_read, spec_step. rewrite Hfl.
@@ -221,7 +354,7 @@ Proof.
     unfold sim, rp in *.
     destruct (hs_buf h) as [[b cur]|]; proj.
     + destruct Hm as [-> ->]. split; [|left; reflexivity]. auto.
-    + destruct Hm as (Hi & Hp & Hle & Hd). rewrite <- Hp.
+    + destruct Hm as (Hi & Hp & Hle & Hq & Hd). rewrite <- Hp.
       destruct (fl_write (sp_fl s) && fl_trunc (sp_fl s)).
       * destruct Hd as [H0 Hd]. rewrite Hd, cread_nil. pose proof (empty_like_clen _ _ H0) as H00.
         assert (Hc : clen (cread (hs_tape h) (sp_pos s) n) = 0) by (rewrite clen_cread; lia).
@@ -232,18 +365,50 @@ Proof.
            ++ left. rewrite H0, cread_nil. reflexivity.
       * rewrite Hd in *. split; [|left; reflexivity].
         repeat split; auto. rewrite clen_cread. lia.
-  - (* ReadAt: only the rejected calls *)
-    unfold hstep, spec_step, op_ok' in *. rewrite Hfl.
-    destruct (fl_read (sp_fl s)); cbn [negb orb] in *; [|split; [exact Hsim0|left; reflexivity]].
-    rewrite Hok. unfold h_seek.
-    destruct (hs_buf h) as [[b cur]|]; cbn; rewrite Hok; cbn; (split; [exact Hsim0|left; reflexivity]).
+  - (* ReadAt *)
+    unfold spec_step.
+    destruct (fl_read (sp_fl s)) eqn:Er; cbn [negb orb].
+    2:{ unfold hstep. rewrite Hfl, Er. cbn [negb]. split; [exact Hsim0|left; reflexivity]. }
+    rewrite <- Hfl in Er.
+    destruct (hs_buf h) as [[b cur]|] eqn:Eb.
+    + (* write mode *)
+      rewrite (hstep_readat_w h b cur n off Eb Er). destruct Hm as [-> ->].
+      assert (S1 : sim z q (set_buf h (sp_data s) (sp_pos s)) s) by (unfold sim; proj; auto).
+      destruct (off <? 0)%Z; (split; [exact S1|left; reflexivity]).
+    + (* read mode *)
+      destruct Hm as (Hi & Hp & Hle & Hq & Hd).
+      rewrite (hstep_readat_r h n off Eb Er) by lia.
+      assert (S1 : sim z q (seek_read h (rp h)) s).
+      { unfold sim, rp in *. proj. repeat split; auto; lia. }
+      destruct (off <? 0)%Z eqn:Eo; [split; [exact S1|left; reflexivity]|].
+      split; [exact S1|]. cbn [snd]. cbv zeta.
+      destruct (fl_write (sp_fl s) && fl_trunc (sp_fl s)).
+      * destruct Hd as [H0 Hd]. rewrite Hd, cread_nil. pose proof (empty_like_clen _ _ H0) as H00.
+        set (k := N.min _ _).
+        assert (Hc : clen (cread (hs_tape h) k n) = 0) by (rewrite clen_cread; lia).
+        rewrite Hc. cbn [clen fold_right].
+        destruct z; cbn [empty_like] in H0.
+        -- right. split; [reflexivity|]. eexists. repeat split. exact Hc.
+        -- left. rewrite H0, cread_nil. reflexivity.
+      * rewrite <- Hd.
+        destruct (N.le_gt_cases (Z.to_N off) (clen (hs_tape h))) as [Hin|Hout].
+        -- rewrite N.min_l by assumption. left. reflexivity.
+        -- rewrite N.min_r by lia. rewrite (cread_beyond (hs_tape h) (Z.to_N off) n Hout).
+           assert (Hc : clen (cread (hs_tape h) (clen (hs_tape h)) n) = 0) by (rewrite clen_cread; lia).
+           rewrite Hc. cbn [clen fold_right].
+           destruct z; [right; split; [reflexivity|]; eexists; repeat split; exact Hc|].
+           left. destruct q.
+           ++ rewrite cread_end_notrail by auto. reflexivity.
+           ++ exfalso. cbn [orb op_strict] in Hst. rewrite <- Hfl, Er, <- Hd in Hst. cbn [negb orb] in Hst.
+              destruct wm; [specialize (Hwm eq_refl); unfold is_w in Hwm; rewrite Eb in Hwm; discriminate|].
+              cbn [orb] in Hst. apply Z.leb_le in Hst. apply Z.ltb_ge in Eo. lia.
   - (* Seek *)
     unfold hstep, h_seek, spec_step, op_ok' in *.
     unfold sim, rp, is_w in *.
     destruct (hs_buf h) as [[b cur]|] eqn:Eb; proj.
     + destruct Hm as [-> ->].
       destruct ((2 <? w) || _); proj; rewrite ?Eb; (split; [auto|left; reflexivity]).
-    + destruct Hm as (Hi & Hp & Hle & Hd).
+    + destruct Hm as (Hi & Hp & Hle & Hq & Hd).
       assert (Hlen : clen (hs_tape h) = clen (sp_data s)).
       { destruct (fl_write (sp_fl s) && fl_trunc (sp_fl s)); [destruct Hd as [H0 ->]; apply empty_like_clen in H0; rewrite H0; reflexivity|rewrite Hd; reflexivity]. }
       rewrite Hi, Hlen, <- Hp.
@@ -257,29 +422,29 @@ Proof.
   - (* Write *)
     unfold hstep, spec_step. rewrite Hfl.
     destruct (fl_write (sp_fl s)) eqn:Ew; cbn [negb]; [|split; [exact Hsim0|left; reflexivity]].
-    rewrite (to_end_noappend (enter_write h) d) by (rewrite hs_fl_enter_write, Hfl; exact Ha).
-    pose proof (sim_enter_write z h s Hsim0 Ew) as H1. pose proof (is_w_enter_write h) as W1.
+    pose proof (sim_enter_write z q h s Hsim0 Ew) as H1. pose proof (is_w_enter_write h) as W1.
     generalize dependent (enter_write h). intros h1 H1 W1.
-    unfold sim, is_w, h_write_at_cursor in *. destruct H1 as (Hfl1 & _ & Hm1).
-    destruct (hs_buf h1) as [[b cur]|] eqn:Eb; [|discriminate]. proj. rewrite ?Eb.
-    destruct Hm1 as [-> ->]. rewrite Ha. split; [auto|left; reflexivity].
-  - (* WriteAt: only the rejected calls *)
-    unfold hstep, spec_step, op_ok' in *. rewrite Hfl.
+    unfold sim, is_w, h_write_at_cursor, to_end_if_append in *. destruct H1 as (Hfl1 & Hm1).
+    destruct (hs_buf h1) as [[b cur]|] eqn:Eb; [|discriminate]. destruct Hm1 as [-> ->]. rewrite Hfl1.
+    destruct (fl_append (sp_fl s) && (0 <? clen d)); proj; rewrite ?Eb; proj; (split; [auto|left; reflexivity]).
+  - (* WriteAt *)
+    unfold hstep, spec_step. rewrite Hfl.
     destruct (fl_write (sp_fl s)) eqn:Ew; cbn [negb orb] in *; [|split; [exact Hsim0|left; reflexivity]].
-    rewrite Hok.
-    pose proof (sim_enter_write z h s Hsim0 Ew) as H1. pose proof (is_w_enter_write h) as W1.
+    pose proof (sim_enter_write z q h s Hsim0 Ew) as H1. pose proof (is_w_enter_write h) as W1.
     generalize dependent (enter_write h). intros h1 H1 W1.
-    unfold h_seek, is_w in *.
-    destruct (hs_buf h1) as [[b cur]|] eqn:Eb; [|discriminate]. cbn. rewrite Hok. cbn.
-    split; [exact H1|left; reflexivity].
+    unfold is_w in W1. destruct (hs_buf h1) as [[b cur]|] eqn:Eb; [|discriminate].
+    pose proof (hstep_writeat_w h1 b cur d off Eb) as E. 
+    destruct (h_seek h1 0 1) as [h0 c]. rewrite E. clear E.
+    unfold sim in H1. rewrite Eb in H1. destruct H1 as (Hfl1 & -> & ->).
+    destruct (off <? 0)%Z; (split; [unfold sim; proj; auto|left; reflexivity]).
   - (* Truncate *)
     unfold hstep, spec_step. rewrite Hfl.
     destruct (fl_write (sp_fl s)) eqn:Ew; cbn [negb orb]; [|split; [exact Hsim0|left; reflexivity]].
     destruct (sz <? 0)%Z eqn:Esz; [split; [exact Hsim0|left; reflexivity]|].
-    pose proof (sim_enter_write z h s Hsim0 Ew) as H1. pose proof (is_w_enter_write h) as W1.
+    pose proof (sim_enter_write z q h s Hsim0 Ew) as H1. pose proof (is_w_enter_write h) as W1.
     generalize dependent (enter_write h). intros h1 H1 W1. cbn zeta.
     unfold is_w in *. destruct (hs_buf h1) as [[b cur]|] eqn:Eb; [|discriminate].
-    unfold sim in *. rewrite Eb in H1. destruct H1 as (Hfl1 & _ & [-> ->]). proj.
+    unfold sim in *. rewrite Eb in H1. destruct H1 as (Hfl1 & [-> ->]). proj.
     split; [auto|left; reflexivity].
   - (* Sync *)
     unfold hstep, spec_step. unfold sim in *.
@@ -287,7 +452,7 @@ Proof.
   - (* Stat *)
     unfold hstep, spec_step. proj. split; [exact Hsim0|]. left. f_equal.
     destruct (hs_buf h) as [[b cur]|] eqn:Eb; [destruct Hm as [-> _]; reflexivity|].
-    destruct Hm as (Hi & Hp & Hle & Hd). rewrite Hi.
+    destruct Hm as (Hi & Hp & Hle & Hq & Hd). rewrite Hi.
     destruct (fl_write (sp_fl s) && fl_trunc (sp_fl s)); [destruct Hd as [H0 ->]; apply empty_like_clen in H0; rewrite H0; reflexivity|rewrite Hd; reflexivity].
 Qed.
 
@@ -310,72 +475,101 @@ Proof.
   unfold h_write_at_cursor, is_w. destruct (hs_buf h) as [[b cur]|] eqn:Eb; cbn; rewrite ?Eb; reflexivity.
 Qed.
 
+Lemma is_w_readat h n off : is_w (fst (hstep h (HReadAt n off))) = is_w h.
+Proof.
+  unfold hstep. destruct (negb _); [reflexivity|].
+  pose proof (is_w_h_seek h 0 1) as S0. destruct (h_seek h 0 1) as [h0 r0]. cbn [fst] in S0.
+  destruct r0; cbn [fst]; try exact S0.
+  pose proof (is_w_h_seek h0 off 0) as S1. destruct (h_seek h0 off 0) as [h1 r1]. cbn [fst] in S1.
+  destruct r1; cbn [fst]; try congruence.
+  pose proof (is_w_h_read h1 n) as S2. destruct (h_read h1 n) as [h2 r2]. cbn [fst] in S2.
+  pose proof (is_w_h_seek h2 o 0) as S3. destruct (h_seek h2 o 0) as [h3 r3]. cbn [fst] in S3.
+  destruct r3; cbn [fst]; congruence.
+Qed.
+
+Lemma is_w_writeat h d off : fl_write (hs_fl h) = true -> is_w (fst (hstep h (HWriteAt d off))) = true.
+Proof.
+  intro Hw. unfold hstep. rewrite Hw. cbn [negb].
+  pose proof (is_w_enter_write h) as W. generalize dependent (enter_write h). intros h' W.
+  pose proof (is_w_h_seek h' 0 1) as S0. destruct (h_seek h' 0 1) as [h0 r0]. cbn [fst] in S0.
+  destruct r0; cbn [fst]; try congruence.
+  pose proof (is_w_h_seek h0 off 0) as S1. destruct (h_seek h0 off 0) as [h1 r1]. cbn [fst] in S1.
+  destruct r1; cbn [fst]; try congruence.
+  pose proof (is_w_h_write h1 d) as S2. destruct (h_write_at_cursor h1 d) as [h2 r2]. cbn [fst] in S2.
+  pose proof (is_w_h_seek h2 o 0) as S3. destruct (h_seek h2 o 0) as [h3 r3]. cbn [fst] in S3.
+  destruct r3; cbn [fst]; congruence.
+Qed.
+
+Lemma is_w_writeat_ro h d off : fl_write (hs_fl h) = false -> fst (hstep h (HWriteAt d off)) = h.
+Proof. intro Hw. unfold hstep. rewrite Hw. reflexivity. Qed.
+
 Lemma is_w_step h o :
   is_w h = true \/ enters_write (hs_fl h) o = true -> is_w (fst (hstep h o)) = true.
 Proof.
-  unfold enters_write. intro H. destruct o as [n|n off|off w|d|d off|sz| |]; unfold hstep.
-  - rewrite is_w_h_read. destruct H as [H|H]; [exact H|]. rewrite andb_false_r in H. discriminate.
-  - destruct H as [H|H]; [|rewrite andb_false_r in H; discriminate].
-    destruct (negb _); [exact H|].
-    pose proof (is_w_h_seek h off 0) as S. destruct (h_seek h off 0) as [h' r]. cbn [fst] in S.
-    destruct r; cbn [fst]; rewrite ?is_w_h_read; congruence.
-  - rewrite is_w_h_seek. destruct H as [H|H]; [exact H|]. rewrite andb_false_r in H. discriminate.
-  - destruct (fl_write (hs_fl h)); cbn [negb andb] in *.
+  unfold enters_write. intro H. destruct o as [n|n off|off w|d|d off|sz| |].
+  - unfold hstep. rewrite is_w_h_read. destruct H as [H|H]; [exact H|]. rewrite andb_false_r in H. discriminate.
+  - rewrite is_w_readat. destruct H as [H|H]; [exact H|]. rewrite andb_false_r in H. discriminate.
+  - unfold hstep. rewrite is_w_h_seek. destruct H as [H|H]; [exact H|]. rewrite andb_false_r in H. discriminate.
+  - unfold hstep. destruct (fl_write (hs_fl h)); cbn [negb andb] in *.
     + rewrite is_w_h_write, is_w_to_end. apply is_w_enter_write.
     + destruct H as [H|H]; [exact H|discriminate].
-  - destruct (fl_write (hs_fl h)); cbn [negb andb] in *.
-    + pose proof (is_w_h_seek (enter_write h) off 0) as S. rewrite is_w_enter_write in S.
-      destruct (h_seek (enter_write h) off 0) as [h' r]. cbn [fst] in S.
-      destruct r; cbn [fst]; rewrite ?is_w_h_write; congruence.
-    + destruct H as [H|H]; [exact H|discriminate].
-  - destruct (fl_write (hs_fl h)); cbn [negb andb orb] in *.
+  - destruct (fl_write (hs_fl h)) eqn:Ew; cbn [negb andb] in *.
+    + apply is_w_writeat. exact Ew.
+    + rewrite is_w_writeat_ro by exact Ew. destruct H as [H|H]; [exact H|discriminate].
+  - unfold hstep. destruct (fl_write (hs_fl h)); cbn [negb andb orb] in *.
     + destruct (sz <? 0)%Z; cbn [negb] in *; [destruct H as [H|H]; [exact H|discriminate]|].
       pose proof (is_w_enter_write h) as W. unfold is_w in *.
       destruct (hs_buf (enter_write h)) as [[b cur]|] eqn:Eb; [|discriminate].
       cbn; rewrite ?Eb; reflexivity.
     + destruct H as [H|H]; [exact H|discriminate].
-  - destruct H as [H|H]; [|rewrite andb_false_r in H; discriminate].
+  - unfold hstep. destruct H as [H|H]; [|rewrite andb_false_r in H; discriminate].
     unfold is_w in *. destruct (hs_buf h) as [[b cur]|] eqn:Eb; cbn; rewrite ?Eb; [reflexivity|exact H].
-  - destruct H as [H|H]; [exact H|]. rewrite andb_false_r in H. discriminate.
+  - unfold hstep. destruct H as [H|H]; [exact H|]. rewrite andb_false_r in H. discriminate.
 Qed.
 
 (* ---------------------------------------------------------------- runs *)
 Definition results_sim (z : bool) (a b : list hres) : Prop := Forall2 (res_sim z) a b.
 
-Lemma sim_run z ops : forall wm h s,
-  sim z h s -> (wm = true -> is_w h = true) -> ops_ok' wm s ops = true ->
-  sim z (fst (hrun h ops)) (fst (spec_run s ops)) /\ results_sim z (snd (hrun h ops)) (snd (spec_run s ops)).
+Lemma sim_run z q ops : forall wm h s,
+  sim z q h s -> (wm = true -> is_w h = true) -> ops_ok' wm s ops = true ->
+  z || q || ops_strict wm s ops = true ->
+  sim z q (fst (hrun h ops)) (fst (spec_run s ops)) /\ results_sim z (snd (hrun h ops)) (snd (spec_run s ops)).
 Proof.
-  induction ops as [|o r IH]; intros wm h s Hsim Hwm Hok.
+  induction ops as [|o r IH]; intros wm h s Hsim Hwm Hok Hst.
   - cbn. split; [exact Hsim|constructor].
   - cbn [ops_ok'] in Hok. apply andb_true_iff in Hok. destruct Hok as [Ho Hr].
-    destruct (sim_step z wm h s o Hsim Hwm Ho) as [S1 R1].
+    assert (Hst1 : z || q || op_strict wm s o = true /\
+                   z || q || ops_strict (wm || enters_write (sp_fl s) o) (fst (spec_step s o)) r = true).
+    { cbn [ops_strict] in Hst. destruct (z || q); [split; reflexivity|]. cbn [orb] in *.
+      apply andb_true_iff in Hst. exact Hst. }
+    destruct Hst1 as [Hso Hsr].
+    destruct (sim_step z q wm h s o Hsim Hwm Ho Hso) as [S1 R1].
     pose proof (is_w_step h o) as W1.
     assert (Hfl : hs_fl h = sp_fl s) by (destruct Hsim as [E _]; exact E).
     cbn [hrun spec_run].
     destruct (hstep h o) as [h1 x]. destruct (spec_step s o) as [s1 y]. cbn [fst snd] in *.
     assert (Hwm1 : wm || enters_write (sp_fl s) o = true -> is_w h1 = true).
     { intro E. apply W1. apply orb_true_iff in E. destruct E as [E|E]; [left; auto|right; rewrite Hfl; exact E]. }
-    destruct (IH _ h1 s1 S1 Hwm1 Hr) as [S2 R2].
+    destruct (IH _ h1 s1 S1 Hwm1 Hr Hsr) as [S2 R2].
     destruct (hrun h1 r) as [h2 xs]. destruct (spec_run s1 r) as [s2 ys]. cbn [fst snd] in *.
     split; [exact S2|constructor; assumption].
 Qed.
 
-Lemma sim_close z h s : sim z h s -> ceqb (h_close h) (sp_data s) = true.
+Lemma sim_close z q h s : sim z q h s -> ceqb (h_close h) (sp_data s) = true.
 Proof.
-  unfold sim, h_close. intros (_ & _ & Hm). destruct (hs_buf h) as [[b cur]|].
+  unfold sim, h_close. intros (_ & Hm). destruct (hs_buf h) as [[b cur]|].
   - destruct Hm as [-> _]. apply ceqb_refl.
-  - destruct Hm as (_ & _ & _ & Hd). destruct (_ && _).
+  - destruct Hm as (_ & _ & _ & _ & Hd). destruct (_ && _).
     + destruct Hd as [H0 ->]. apply ceqb_clen0; [exact (empty_like_clen _ _ H0)|reflexivity].
     + rewrite Hd. apply ceqb_refl.
 Qed.
 
 (* outside the corner the final content is the very same piece list *)
-Lemma sim_close_eq h s : sim false h s -> h_close h = sp_data s.
+Lemma sim_close_eq q h s : sim false q h s -> h_close h = sp_data s.
 Proof.
-  unfold sim, h_close. intros (_ & _ & Hm). destruct (hs_buf h) as [[b cur]|].
+  unfold sim, h_close. intros (_ & Hm). destruct (hs_buf h) as [[b cur]|].
   - destruct Hm as [-> _]. reflexivity.
-  - destruct Hm as (_ & _ & _ & Hd). destruct (_ && _); [|exact Hd].
+  - destruct Hm as (_ & _ & _ & _ & Hd). destruct (_ && _); [|exact Hd].
     destruct Hd as [H0 ->]. exact H0.
 Qed.
 
@@ -385,37 +579,57 @@ Proof. unfold results_sim, results_agree. induction 1; constructor; eauto using 
 Lemma results_sim_eq a b : results_sim false a b -> a = b.
 Proof. unfold results_sim. induction 1; [reflexivity|]. f_equal; [apply res_sim_eq; assumption|assumption]. Qed.
 
-(* the theorem for the wider envelope *)
+(* the theorem for the wider envelope: every flag combination (O_APPEND included), every ReadAt/WriteAt *)
 Theorem C14_refines_wide : forall existing fl ops,
-  fl_append fl = false ->
   ops_ok' (wm_open existing fl) (spec_open existing fl) ops = true ->
   let '(h, rs) := hrun (h_open existing fl) ops in
   let '(s, rs') := spec_run (spec_open existing fl) ops in
   results_agree rs rs' /\ ceqb (h_close h) (sp_data s) = true.
 Proof.
-  intros existing fl ops Ha Hok.
+  intros existing fl ops Hok.
   assert (Hz : true = false -> no_empty_pieces_corner existing fl) by discriminate.
-  destruct (sim_run true ops _ _ _ (sim_open true existing fl Ha Hz) (is_w_open existing fl) Hok) as [S R].
+  assert (Hq : false = true -> notrail existing) by discriminate.
+  destruct (sim_run true false ops _ _ _ (sim_open true false existing fl Hz Hq) (is_w_open existing fl) Hok eq_refl) as [S R].
   destruct (hrun (h_open existing fl) ops) as [h rs].
   destruct (spec_run (spec_open existing fl) ops) as [s rs']. cbn [fst snd] in *.
   split; [eapply results_sim_agree; exact R|eapply sim_close; exact S].
 Qed.
 
-(* syntactic equality of results and of the final piece list, outside the corner "opened O_TRUNC for
-   writing on a non-[] content whose pieces all have length 0" *)
+(* syntactic equality of results and of the final piece list, for an existing content that does not end in
+   zero-length pieces (in particular: a content without zero-length pieces) *)
 Theorem C14_refines_eq : forall existing fl ops,
-  fl_append fl = false ->
-  no_empty_pieces_corner existing fl ->
+  notrail existing ->
   ops_ok' (wm_open existing fl) (spec_open existing fl) ops = true ->
   let '(h, rs) := hrun (h_open existing fl) ops in
   let '(s, rs') := spec_run (spec_open existing fl) ops in
   rs = rs' /\ h_close h = sp_data s.
 Proof.
-  intros existing fl ops Ha Hc Hok.
-  destruct (sim_run false ops _ _ _ (sim_open false existing fl Ha (fun _ => Hc)) (is_w_open existing fl) Hok) as [S R].
+  intros existing fl ops Hc Hok.
+  destruct (sim_run false true ops _ _ _
+              (sim_open false true existing fl (fun _ => notrail_no_corner existing fl Hc) (fun _ => Hc))
+              (is_w_open existing fl) Hok eq_refl) as [S R].
   destruct (hrun (h_open existing fl) ops) as [h rs].
   destruct (spec_run (spec_open existing fl) ops) as [s rs']. cbn [fst snd] in *.
-  split; [apply results_sim_eq; exact R|apply sim_close_eq; exact S].
+  split; [apply results_sim_eq; exact R|eapply sim_close_eq; exact S].
+Qed.
+
+(* ... and for ANY existing content outside the corner "opened O_TRUNC for writing on a non-[] content whose pieces
+   all have length 0", when no accepted ReadAt in read mode starts beyond the end *)
+Theorem C14_refines_eq_strict : forall existing fl ops,
+  no_empty_pieces_corner existing fl ->
+  ops_ok' (wm_open existing fl) (spec_open existing fl) ops = true ->
+  ops_strict (wm_open existing fl) (spec_open existing fl) ops = true ->
+  let '(h, rs) := hrun (h_open existing fl) ops in
+  let '(s, rs') := spec_run (spec_open existing fl) ops in
+  rs = rs' /\ h_close h = sp_data s.
+Proof.
+  intros existing fl ops Hc Hok Hst.
+  assert (Hq : false = true -> notrail existing) by discriminate.
+  destruct (sim_run false false ops _ _ _ (sim_open false false existing fl (fun _ => Hc) Hq)
+              (is_w_open existing fl) Hok Hst) as [S R].
+  destruct (hrun (h_open existing fl) ops) as [h rs].
+  destruct (spec_run (spec_open existing fl) ops) as [s rs']. cbn [fst snd] in *.
+  split; [apply results_sim_eq; exact R|eapply sim_close_eq; exact S].
 Qed.
 
 (* the corner is real: syntactic equality fails there, equality up to [expand] holds *)
@@ -429,57 +643,130 @@ Example corner_not_syntactic :
   spec_run (spec_open existing fl) ops = ({| sp_data := []; sp_pos := 0; sp_fl := fl |}, [RData [] true]).
 Proof. vm_compute. repeat split. Qed.
 
+(* so is the other one: a ReadAt beyond the end of a content that ends in a zero-length piece, in read mode, delivers that
+   piece where the byte array delivers []; inside the envelope, equal up to [expand], not syntactically *)
+Example trailing_not_syntactic :
+  let existing := [(5, 0, 4); (1, 0, 0)] in
+  let fl := {| fl_read := true; fl_write := false; fl_append := false; fl_trunc := false |} in
+  let ops := [HReadAt 2 7] in
+  ops_ok (spec_open existing fl) ops = true /\ no_empty_pieces_corner existing fl /\
+  ops_strict (wm_open existing fl) (spec_open existing fl) ops = false /\
+  snd (hrun (h_open existing fl) ops) = [RData [(1, 0, 0)] true] /\
+  snd (spec_run (spec_open existing fl) ops) = [RData [] true].
+Proof. vm_compute. repeat split. discriminate. Qed.
+
 (* the theorem of the task statement *)
 Theorem C14_refines : forall existing fl ops,
-  fl_append fl = false ->
   ops_ok (spec_open existing fl) ops = true ->
   let '(h, rs) := hrun (h_open existing fl) ops in
   let '(s, rs') := spec_run (spec_open existing fl) ops in
   results_agree rs rs' /\ ceqb (h_close h) (sp_data s) = true.
 Proof.
-  intros existing fl ops Ha Hok. apply C14_refines_wide; [exact Ha|]. apply ops_ok_weaken. exact Hok.
+  intros existing fl ops Hok. apply C14_refines_wide. apply ops_ok_weaken. exact Hok.
 Qed.
 
 (* ---------------------------------------------------------------- the envelope is needed *)
-(* each restriction of the envelope is violated by a concrete run ([agree_b] decides the conclusion
+(* the restriction of the envelope is violated by a concrete run ([agree_b] decides the conclusion
    of the theorems) *)
 Definition agree_b (existing : content) (fl : flags) (ops : list hop) : bool :=
   let '(h, rs) := hrun (h_open existing fl) ops in
   let '(s, rs') := spec_run (spec_open existing fl) ops in
   match first_bad 0 rs rs' with Some _ => false | None => ceqb (h_close h) (sp_data s) end.
+(* membership in the wide envelope *)
+Definition in_env (existing : content) (fl : flags) (ops : list hop) : bool :=
+  ops_ok' (wm_open existing fl) (spec_open existing fl) ops.
 
 Definition fl_ro := {| fl_read := true; fl_write := false; fl_append := false; fl_trunc := false |}.
 Definition fl_rw := {| fl_read := true; fl_write := true; fl_append := false; fl_trunc := false |}.
 Definition fl_rwa := {| fl_read := true; fl_write := true; fl_append := true; fl_trunc := false |}.
+Definition fl_rwt := {| fl_read := true; fl_write := true; fl_append := false; fl_trunc := true |}.
+Definition fl_rwat := {| fl_read := true; fl_write := true; fl_append := true; fl_trunc := true |}.
+Definition fl_wo := {| fl_read := false; fl_write := true; fl_append := false; fl_trunc := false |}.
+Definition fl_woa := {| fl_read := false; fl_write := true; fl_append := true; fl_trunc := false |}.
 Definition ten : content := [(5, 0, 10)].
 
-(* an accepted ReadAt moves the cursor *)
-Example needs_no_readat : agree_b ten fl_ro [HReadAt 2 3; HRead 1] = false.
-Proof. vm_compute. reflexivity. Qed.
-(* an accepted WriteAt moves the cursor *)
-Example needs_no_writeat : agree_b ten fl_rw [HWriteAt [(7, 0, 2)] 0; HWrite [(8, 0, 1)]] = false.
-Proof. vm_compute. reflexivity. Qed.
 (* a seek beyond the end in read mode loses the position *)
 Example needs_seek_bound : agree_b ten fl_ro [HSeek 20 0; HSeek 0 1] = false.
 Proof. vm_compute. reflexivity. Qed.
 (* ... also after a refused Truncate (negative size), which does not enter write mode *)
 Example needs_seek_bound_after_refused_truncate : agree_b ten fl_rw [HTruncate (-1); HSeek 20 0; HSeek 0 1] = false.
 Proof. vm_compute. reflexivity. Qed.
+(* ... also with ReadAt/WriteAt-free positioned reads in between, and on an append handle *)
+Example needs_seek_bound_append : agree_b ten fl_rwa [HSeek 20 0; HSeek 0 1] = false.
+Proof. vm_compute. reflexivity. Qed.
+(* ... and a ReadAt does not repair a lost position (it restores the clamped one) *)
+Example needs_seek_bound_readat : agree_b ten fl_ro [HSeek 20 0; HReadAt 2 3; HSeek 0 1] = false.
+Proof. vm_compute. reflexivity. Qed.
 (* ... while after an accepted Truncate the same seeks are inside the wider envelope *)
 Example seek_free_after_truncate :
   ops_ok' (wm_open ten fl_rw) (spec_open ten fl_rw) [HTruncate 10; HSeek 20 0; HSeek 0 1] = true /\
   ops_ok (spec_open ten fl_rw) [HTruncate 10; HSeek 20 0; HSeek 0 1] = false.
 Proof. vm_compute. split; reflexivity. Qed.
-(* O_APPEND handles: on the pinned tree the flag was honoured only when entering write mode (this sequence disagreed);
-   repaired in /repo ("fix: apply O_APPEND on every write"), mirrored in Model/File.v (to_end_if_append).  The sequences
-   that used to witness the finding now agree with the byte-array specification; the refinement theorems still carry the
-   hypothesis fl_append = false because their proof was written for it (no counterexample is known any more). *)
+(* ... and after a WriteAt, even a refused one (negative offset: write mode is entered before the offset is looked at) *)
+Example seek_free_after_writeat :
+  in_env ten fl_rw [HWriteAt [] 3; HSeek 20 0; HSeek 0 1] = true /\
+  agree_b ten fl_rw [HWriteAt [] 3; HSeek 20 0; HSeek 0 1] = true /\
+  in_env ten fl_rw [HWriteAt [(7, 0, 2)] (-1); HSeek 20 0; HSeek 0 1] = true /\
+  agree_b ten fl_rw [HWriteAt [(7, 0, 2)] (-1); HSeek 20 0; HSeek 0 1] = true.
+Proof. vm_compute. repeat split; reflexivity. Qed.
+
+(* O_APPEND handles: on the pinned tree the flag was honoured only when entering write mode; repaired in /repo
+   ("fix: apply O_APPEND on every write"), mirrored in Model/File.v (to_end_if_append).  The sequences that used to
+   witness the finding agree with the byte-array specification, and the refinement theorems cover O_APPEND. *)
 Example append_agrees :
   agree_b ten fl_rwa [HWrite [(7, 0, 2)]; HSeek 0 0; HWrite [(8, 0, 1)]] = true /\
   agree_b ten fl_rwa [HWrite []; HRead 4] = true /\
   agree_b ten fl_rwa [HRead 3; HTruncate 5; HRead 2; HWrite [(7, 0, 2)]; HSeek 0 1] = true.
 Proof. vm_compute. repeat split; reflexivity. Qed.
 
+(* ReadAt/WriteAt used to move the cursor; repaired in /repo (the cursor is remembered and restored), mirrored in
+   Model/File.v.  The sequences that used to witness the finding agree, and are inside even the narrow envelope. *)
+Example readat_agrees :
+  agree_b ten fl_ro [HReadAt 2 3; HRead 1] = true /\ ops_ok (spec_open ten fl_ro) [HReadAt 2 3; HRead 1] = true.
+Proof. vm_compute. split; reflexivity. Qed.
+Example writeat_agrees :
+  agree_b ten fl_rw [HWriteAt [(7, 0, 2)] 0; HWrite [(8, 0, 1)]] = true /\
+  ops_ok (spec_open ten fl_rw) [HWriteAt [(7, 0, 2)] 0; HWrite [(8, 0, 1)]] = true.
+Proof. vm_compute. split; reflexivity. Qed.
+
+(* a test matrix (instances of the theorems, run): every flag combination below x every sequence below x four
+   initial contents: read mode, write mode, append handles, offsets beyond the end, negative offsets, zero-length
+   data, after Truncate, after Sync, on the empty file and on contents with zero-length pieces *)
+Definition test_flags : list flags := [fl_ro; fl_rw; fl_rwa; fl_rwt; fl_rwat; fl_wo; fl_woa].
+Definition test_contents : list content := [ten; []; [(5, 0, 0)]; [(5, 0, 4); (6, 0, 0); (7, 3, 6); (1, 0, 0)]].
+Definition test_seqs : list (list hop) := [
+  [HReadAt 2 3; HRead 1; HSeek 0 1];
+  [HRead 3; HReadAt 4 8; HRead 2; HSeek 0 1; HStat];
+  [HRead 3; HReadAt 4 20; HRead 2; HSeek 0 1];
+  [HRead 3; HReadAt 4 10; HRead 2; HSeek 0 1];
+  [HRead 3; HReadAt 4 (-1); HRead 2; HSeek 0 1];
+  [HRead 3; HReadAt 0 2; HRead 2; HSeek 0 1];
+  [HWriteAt [(7, 0, 2)] 0; HWrite [(8, 0, 1)]; HSeek 0 1; HStat];
+  [HRead 3; HWriteAt [(7, 0, 2)] 20; HRead 2; HSeek 0 1; HStat; HReadAt 30 0];
+  [HRead 3; HWriteAt [] 20; HRead 2; HSeek 0 1; HStat; HReadAt 30 0];
+  [HRead 3; HWriteAt [(7, 0, 2)] (-3); HRead 2; HSeek 0 1; HStat; HSeek (-1) 2; HSeek 0 1];
+  [HRead 3; HTruncate 5; HReadAt 3 4; HWriteAt [(7, 0, 3)] 8; HRead 20; HSeek 0 1; HStat; HReadAt 30 0];
+  [HRead 3; HTruncate 15; HReadAt 3 12; HWriteAt [(7, 0, 3)] 8; HRead 20; HSeek 0 1; HStat; HReadAt 30 0];
+  [HRead 3; HWrite [(9, 0, 2)]; HSync; HReadAt 3 4; HWriteAt [(7, 0, 3)] 8; HSync; HRead 20; HSeek 0 1; HStat; HReadAt 30 0];
+  [HSync; HReadAt 3 4; HRead 2; HWriteAt [(7, 0, 3)] 8; HSync; HRead 20; HSeek 0 1; HStat; HReadAt 30 0];
+  [HWriteAt [] 0; HSeek 30 0; HWriteAt [(7, 0, 3)] 8; HSeek 0 1; HWrite [(6, 0, 1)]; HStat; HReadAt 50 0];
+  [HRead 5; HWrite []; HSeek 0 1; HReadAt 1 1; HWrite [(6, 0, 1)]; HSeek 0 1;  HStat; HReadAt 50 0];
+  [HRead 5; HWriteAt [(6, 0, 1)] 1; HWrite [(6, 0, 1)]; HSeek 0 1;  HStat; HReadAt 50 0];
+  [HSeek 0 2; HReadAt 3 3; HRead 1; HSeek 0 1; HReadAt 3 10; HSeek 0 1];
+  [HSeek (-2) 2; HReadAt 3 9; HRead 5; HSeek 0 1; HReadAt 3 10; HSeek 0 1];
+  [HReadAt 5 1; HWriteAt [(7, 0, 2)] 12; HReadAt 20 0; HSeek 0 1; HWrite [(8, 0, 3)]; HReadAt 20 0; HSeek 0 1] ].
+Definition test_matrix : list (bool * bool) :=
+  flat_map (fun c => flat_map (fun fl => map (fun ops => (in_env c fl ops, agree_b c fl ops)) test_seqs) test_flags) test_contents.
+(* 560 runs; 556 inside the envelope, all of which agree; the other 4 (a read-only handle seeks beyond the end after a
+   refused WriteAt) disagree *)
+Example readat_writeat_tests :
+  length test_matrix = 560%nat /\
+  length (filter (fun x => fst x) test_matrix) = 556%nat /\
+  forallb (fun x => implb (fst x) (snd x)) test_matrix = true /\
+  forallb (fun x => fst x || negb (snd x)) test_matrix = true.
+Proof. vm_compute. repeat split; reflexivity. Qed.
+
 Print Assumptions C14_refines_wide.
 Print Assumptions C14_refines_eq.
+Print Assumptions C14_refines_eq_strict.
 Print Assumptions C14_refines.
